@@ -180,6 +180,52 @@ pub fn c06(g: &mut Gen) {
         lines.push("ser sizes A".to_string()); lines.push("ser reload A Y extra=2".to_string()); lines.push("ser seq A B A".to_string());
         g.group(lines);
     }
+    // degenerate values through save / load: EMPTY integer vectors of every kind of width (fresh, cleared, popped empty —
+    // the loaded vector must keep the width: equality, bytes, and what a later push stores), all-zero / single-symbol /
+    // one-item wavelet matrices, all-zero and all-one bitvectors with every support subset, empty sparse and run-length vectors
+    for w in [1u64, 2, 7, 13, 31, 32, 33, 63, 64] {
+        let mut lines = vec![format!("iv E new {}", w)];
+        lines.push("ser sizes E".to_string()); lines.push("ser file E".to_string()); lines.push("ser reload E Y extra=1".to_string());
+        lines.push("iv E eq Y".to_string()); lines.push(format!("iv Y push {}", MAXU)); lines.push("iv Y items".to_string()); lines.push("iv Y ser".to_string());
+        lines.push(format!("iv C with_len 3 {} {}", w, 5 & if w == 64 { MAXU } else { (1u64 << w) - 1 }));
+        lines.push("iv C clear".to_string()); lines.push("ser reload C Y2 extra=0".to_string()); lines.push("iv C eq Y2".to_string());
+        lines.push(format!("iv Y2 push {}", MAXU - 1)); lines.push("iv Y2 items".to_string());
+        lines.push(format!("iv P with_len 2 {} 1", w)); lines.push("iv P pop".to_string()); lines.push("iv P pop".to_string());
+        lines.push("ser reload P Y3 extra=2".to_string()); lines.push("iv P eq Y3".to_string()); lines.push("iv Y3 push 1".to_string()); lines.push("iv Y3 ser".to_string());
+        lines.push("ser seq E C P E".to_string());
+        g.group(lines);
+    }
+    for (i, vals) in [vec![0u64; 1], vec![0; 2], vec![0; 9], vec![0; 64], vec![0; 65], vec![5; 7], vec![1; 64], vec![255; 3], vec![0, 0, 1], vec![1, 0, 0], vec![0, 2, 0, 2],
+                      vec![7], vec![0, 1, 2, 3], vec![3, 3, 3, 3, 0]].iter().enumerate() {
+        let ty = ["u8", "u64", "u16", "usize", "u32"][i % 5];
+        let mut lines = vec![format!("wm W from {} {}", ty, ws(vals))];
+        lines.push("ser sizes W".to_string()); lines.push("ser file W".to_string()); lines.push("ser reload W Y extra=1".to_string());
+        lines.push("wm W eq Y".to_string()); lines.push("wm Y items".to_string());
+        for v in [0u64, 1, 2, 5, 255] { lines.push(format!("wm Y rank {} {}", vals.len(), v)); lines.push(format!("wm Y select 0 {}", v)); }
+        lines.push("ser seq W W".to_string());
+        g.group(lines);
+    }
+    for n in [1usize, 63, 64, 65, 512, 513, 4096, 4097] {
+        for fill in [false, true] {
+            for flags in ["", "r", "s", "z", "rs", "rz", "sz", "rsz"] {
+                let bits = vec![fill; n];
+                let mut lines = vec![format!("bv B from_raw {} {}", n, words_of_bits(&bits))];
+                if !flags.is_empty() { lines.push(format!("bv B enable {}", flags)); }
+                lines.push("ser sizes B".to_string()); lines.push("ser reload B Y extra=1".to_string()); lines.push("bv Y supports".to_string());
+                lines.push("bv Y enable rsz".to_string()); lines.push(format!("bv Y rank {}", n / 2)); lines.push("bv Y select 0".to_string()); lines.push("bv Y select0 0".to_string());
+                g.group(lines);
+            }
+        }
+    }
+    {
+        let mut lines = vec!["sp S build 0 0".to_string(), "ser reload S Y extra=1".to_string(), "sp S eq Y".to_string()];
+        lines.push("sp T build 77 0".to_string()); lines.push("ser reload T Y2 extra=1".to_string()); lines.push("sp T eq Y2".to_string()); lines.push("sp Y2 rank 77".to_string());
+        lines.push("rl R build : l0".to_string()); lines.push("ser reload R Z extra=1".to_string()); lines.push("rl R eq Z".to_string());
+        lines.push("rl Q build : l500".to_string()); lines.push("ser reload Q Z2 extra=1".to_string()); lines.push("rl Q eq Z2".to_string()); lines.push("rl Z2 rank 500".to_string());
+        lines.push("rl O build : s0,500".to_string()); lines.push("ser reload O Z3 extra=1".to_string()); lines.push("rl O eq Z3".to_string()); lines.push("rl Z3 rank 500".to_string());
+        lines.push("ser seq S T R Q O".to_string());
+        g.group(lines);
+    }
     long_partial_superblocks(g);
     // sparse and run-length vectors over universes up to usize::MAX written and loaded back
     for (n, vals) in [(MAXU, vec![3u64, 1 << 40, MAXU - 9, MAXU - 1]), (MAXU, vec![7]), (MAXU - 1, vec![0, MAXU - 2]), ((1u64 << 63) + (1u64 << 59), vec![5, 1u64 << 63]), (0xFEDC_BA98_7654_3211, vec![1, 0x1234_5678_9ABC_DEF0, 0xFEDC_BA98_7654_3210])] {
